@@ -859,9 +859,9 @@ def entry_no_bypass(run, ctx):
     run.ok(fam, label, "src/lib.rs", n, "every answer of is_match / find_from_pos* / captures_from_pos* comes from the engine dispatch; construction always parses, wraps, analyses, compiles")
 
 
-def iterator_impls(run, ctx):
+def iterator_impls(run, ctx, only=None):
     """Public iterator types define only `next` (and `size_hint`): an overridden nth/count/last/fold could
-    disagree with repeated next()."""
+    disagree with repeated next().  `only`: the iterator types whose agreement the calling property depends on."""
     fam, label = "OWN", "iterator-overrides"
     n = 0
     for im in ctx.facts.impls:
@@ -870,6 +870,8 @@ def iterator_impls(run, ctx):
         names = [it["name"] for it in im["items"] if it["name"] not in ("Item",)]
         n += 1
         extra = [x for x in names if x not in ("next", "size_hint")]
+        if only is not None and not any(im["self_ty"].startswith(t) for t in only):
+            continue
         if extra:
             run.violation(fam, label, "%s/%s" % (im["self_ty"], ",".join(extra)), "%s:%d" % (im["span"]["file"], im["span"]["line"]),
                           "impl Iterator for %s overrides %s: everything but next() must follow from next() (an overridden method can disagree with repeated next())" % (im["self_ty"], extra))
